@@ -1,5 +1,6 @@
 import CentrifugeVerif.Proofs.Live
 import CentrifugeVerif.Proofs.SubReply
+import CentrifugeVerif.Proofs.Sync
 /-!
 # C01 — positioned stream delivery is gap-free, duplicate-free and ordered
 
@@ -7,6 +8,9 @@ Part (a): the live path (`writePublicationUpdatePosition`), for EVERY sequence o
 deliveries (any offsets, epochs, lag flags — i.e. every drop / duplicate / reorder / delay fault
 sequence of the PUB/SUB layer).
 Part (b): the subscribe reply (history read + publications buffered during the subscribe).
+Part (c): the interleaving of the subscribe sequence with the channel's broadcaster
+(`PubSubSync`), as invariants of the transition system `Model/Sync.lean` — every reachable state of
+every interleaving, for arbitrary deliveries arriving at arbitrary moments.
 -/
 namespace CentrifugeVerif.C01
 open CentrifugeVerif.Live CentrifugeVerif.SubReply CentrifugeVerif.Merge
@@ -283,5 +287,90 @@ theorem reply_then_live_contiguous (req : Req) (h : Hist) (buffered pubs : List 
     (_hs : subscribe req h buffered = .reply true pubs off pos e) (incs : List Inc) :
     consumed (run ⟨pos, e⟩ incs).2 = List.range' (pos + 1) (consumed (run ⟨pos, e⟩ incs).2).length :=
   (live_contiguous ⟨pos, e⟩ incs).1
+
+/-! ## (c) interleavings of subscribe and broadcast (`PubSubSync`) -/
+open CentrifugeVerif.Sync in
+/-- The subscribe reply is the first thing the client sees for the channel; everything after it
+is a publication push or the insufficient-state signal. -/
+theorem sync_reply_first (req : Req) (hist : Hist) (s : St) (h : Reachable req hist s) :
+    s.log = [] ∨ ∃ r pubs off rest, s.log = .reply r pubs off :: rest ∧
+      ∀ ev ∈ rest, (∃ o, ev = .push o) ∨ ev = .insufficient := by
+  have hi := (inv_reachable req hist s h).1
+  cases hspc : s.spc <;> simp only [InvS, hspc] at hi
+  case s5 | s6 | s7 =>
+    obtain ⟨r, pubs, off, pos, e, rest, _, h2, h3, _⟩ := hi.2.2.2.2
+    exact Or.inr ⟨r, pubs, off, rest, h2, h3⟩
+  all_goals exact Or.inl hi.2.2.2.2.2
+
+open CentrifugeVerif.Sync in
+/-- In every reachable state of every interleaving the live pushes are a sublist of
+`pos+1, …, pos+n`, where `pos` is the position committed with the reply and `pos+n` the current
+position: strictly increasing, above the reply's position, and the position never moved over an
+offset that was not consumed. -/
+theorem sync_pushes_contiguous (req : Req) (hist : Hist) (s : St) (h : Reachable req hist s)
+    (r : Bool) (pubs : List MPub) (off pos e : Nat)
+    (hr : subscribe req hist s.taken = .reply r pubs off pos e) :
+    ∃ n, (pushes s.log).Sublist (List.range' (pos + 1) n) ∧
+      (s.sub = none ∨ ∃ ep, s.sub = some ⟨pos + n, ep⟩) := by
+  have hi := (inv_reachable req hist s h).1
+  cases hspc : s.spc <;> simp only [InvS, hspc] at hi
+  case s6 | s7 =>
+    obtain ⟨r', pubs', off', pos', e', rest, h1, h2, _, h4⟩ := hi.2.2.2.2
+    rw [hr] at h1
+    simp only [Outcome.reply.injEq] at h1
+    obtain ⟨_, _, _, hp, _⟩ := h1
+    subst hp
+    simp only [if_true] at h4
+    obtain ⟨n, ep, hs, hsl⟩ := h4
+    exact ⟨n, by simpa [h2, pushes] using hsl, Or.inr ⟨ep, hs⟩⟩
+  case s5 =>
+    obtain ⟨r', pubs', off', pos', e', rest, h1, h2, _, h4⟩ := hi.2.2.2.2
+    simp only [Bool.false_eq_true, if_false] at h4
+    exact ⟨0, by simp [h2, h4.2.1, pushes], Or.inl h4.1⟩
+  all_goals exact ⟨0, by simp [hi.2.2.2.2.2, pushes], Or.inl hi.2.2.2.2.1⟩
+
+open CentrifugeVerif.Sync in
+/-- No publication is pushed before the subscription is committed (hence none before the reply). -/
+theorem sync_no_push_before_commit (req : Req) (hist : Hist) (s : St) (h : Reachable req hist s)
+    (hn : s.sub = none) : pushes s.log = [] := by
+  have hi := (inv_reachable req hist s h).1
+  cases hspc : s.spc <;> simp only [InvS, hspc] at hi
+  case s6 | s7 =>
+    obtain ⟨_, _, _, _, _, _, _, _, _, h4⟩ := hi.2.2.2.2
+    simp only [if_true] at h4
+    obtain ⟨n, ep, hs, _⟩ := h4
+    rw [hn] at hs; cases hs
+  case s5 =>
+    obtain ⟨_, _, _, _, _, rest, _, h2, _, h4⟩ := hi.2.2.2.2
+    simp only [Bool.false_eq_true, if_false] at h4
+    simp [h2, h4.2.1, pushes]
+  all_goals simp [hi.2.2.2.2.2, pushes]
+
+open CentrifugeVerif.Sync in
+/-- The subscribe window loses nothing: unless the subscribe itself failed, a delivery routed to
+the client after the hub add is never dropped for "not subscribed yet" — it is buffered (and merged
+into the reply) or applied against the committed position. -/
+theorem sync_no_window_drop (req : Req) (hist : Hist) (s : St) (h : Reachable req hist s)
+    (hf : s.spc ≠ .failed) : s.dropped = [] :=
+  (inv_reachable req hist s h).2.2 hf
+
+open CentrifugeVerif.Sync in
+/-- A broadcaster reaches the live path only after `StopBuffering` (or after a failed subscribe):
+while the subscribe is in flight every routed delivery is parked or buffered. -/
+theorem sync_live_only_after_stop (req : Req) (hist : Hist) (s : St) (h : Reachable req hist s)
+    (d : Inc) (hb : s.bpc = .live d) : s.spc = .s7 ∨ s.spc = .failed := by
+  have hi := (inv_reachable req hist s h).2.1
+  rw [hb] at hi
+  exact hi
+
+/-! non-vacuity: a concrete interleaving with one buffered and one parked delivery reaches the
+settled state, delivers the buffered publication in the reply and the parked one live. -/
+open CentrifugeVerif.Sync in
+example :
+    (runLabels ⟨true, false, 5, 1⟩ ⟨[⟨6, false⟩], 6, 1⟩ {}
+      [.sStart, .sHubAdd, .bStart ⟨7, 1, false, false⟩, .bCheck, .bLock, .sHist, .sLock,
+       .bStart ⟨8, 1, false, false⟩, .bCheck, .sReply, .sCommit, .sStop, .bLock, .bLive]).map
+      (fun s => (s.log, s.sub, s.dropped)) =
+    some ([.reply true [⟨6, false, 0⟩, ⟨7, false, 0⟩] 5, .push 8], some ⟨8, 1⟩, []) := by decide
 
 end CentrifugeVerif.C01
